@@ -53,7 +53,7 @@ let ops : (S.t * (S.t array -> S.t)) list = [
   "tagname", op_tagname;
   "tagname_range", op_tagname_range;
   "enumcheck", op_enumcheck;
-] @ Ops_tags.ops @ Ops_crc.ops @ Ops_sec.ops @ Ops_rtap.ops @ Ops_frame.ops @ Ops_cap.ops @ Ops_gen.ops @ Ops_mgmt.ops @ Ops_more.ops
+] @ Ops_tags.ops @ Ops_crc.ops @ Ops_sec.ops @ Ops_rtap.ops @ Ops_frame.ops @ Ops_cap.ops @ Ops_gen.ops @ Ops_mgmt.ops @ Ops_life.ops @ Ops_more.ops
 
 let () =
   let tbl = Hashtbl.create 64 in
